@@ -36,7 +36,7 @@ func init() {
 	// ------------------------------------------------------------------ C01
 	register(&Prop{
 		ID: "C01", Level: "exploration", QuickS: 20, ThoroughS: 300,
-		Rule:       "seeded authentication attempts against ClearTextPassword(validator) and a custom failing strategy: validator outcome drawn per case (accept / reject / fail with either verdict flag), the client sends in place of the password message a correct, wrong or empty password, a password message without NUL / with surplus bytes / with declared length 0-3, > limit or 2^32-1, another message type, garbage, or nothing; then a generated tail of queries, extended messages, Terminate and raw bytes, pipelined in the same segment or sent after the server's reply; segmentation and a failing write are drawn per case; a share of cases lets 2-3 connections log in to one account at the same time under seeded schedules (one with the right password); a share of cases authenticates inside an upgraded (TLS) connection, with and without an unverified client certificate, judged against the plaintext equivalent; in a quarter of the cases an earlier connection first logs in successfully with related credentials (the same triple, whose password the validator rejects from the second time on, or a triple that reads the same when its parts are joined with a separator), some accounts have an empty password, some servers were given an accept-all strategy before the configured one (last option wins), a failing write is permanent or transient (exactly one write fails); validators whose returned context has already ended when they refuse (a lookup under its own time limit); E2 variant: Server.Close runs while the validator is looking at a wrong password (the refusal is still reported, nothing is served); validators that panic (the injected panic crosses the library and is caught at the top of the connection goroutine: the process may die, the connection never gets in); non-trivial = the connection was not accepted and the client sent at least one message after its credentials; distinct = distinct case content hashes",
+		Rule:       "seeded authentication attempts against ClearTextPassword(validator) and a custom failing strategy: validator outcome drawn per case (accept / reject / fail with either verdict flag), the client sends in place of the password message a correct, wrong or empty password, a password message without NUL / with surplus bytes / with declared length 0-3, > limit or 2^32-1, another message type, garbage, or nothing; then a generated tail of queries, extended messages, Terminate and raw bytes, pipelined in the same segment or sent after the server's reply; segmentation and a failing write are drawn per case; a share of cases lets 2-3 connections log in to one account at the same time under seeded schedules (one with the right password); a share of cases authenticates inside an upgraded (TLS) connection, with and without an unverified client certificate, judged against the plaintext equivalent; in a quarter of the cases an earlier connection first logs in successfully with related credentials (the same triple, whose password the validator rejects from the second time on, or a triple that reads the same when its parts are joined with a separator), some accounts have an empty password, some servers were given an accept-all strategy before the configured one (last option wins), a failing write is permanent or transient (exactly one write fails); validators whose returned context has already ended when they refuse (a lookup under its own time limit); the same wrong credentials presented twice in a row; E2 variant slow-validators: a correct login whose lookup takes 0.1 s - 1 min of simulated time beside a later wrong-password login whose lookup is slow too; E2 variant: Server.Close runs while the validator is looking at a wrong password (the refusal is still reported, nothing is served); validators that panic (the injected panic crosses the library and is caught at the top of the connection goroutine: the process may die, the connection never gets in); non-trivial = the connection was not accepted and the client sent at least one message after its credentials; distinct = distinct case content hashes",
 		Components: e1Components, Assumptions: commonAssumptions,
 		Gen: func(r *Rand, tier string) *Case {
 			if r.Chance(1, 15) {
@@ -73,6 +73,25 @@ func init() {
 				c.Conns = []ConnCase{{Steps: []Step{{Msgs: []pgwire.FMsg{startupMsg(user, db)}}, {Msgs: append([]pgwire.FMsg{{K: "p", S1: "wrong" + r.Ident(2)}}, tail...)}}}}
 				c.Sched = &SchedCase{Strategy: r.Pick("uniform", "pct"), Depth: 1, MaxSteps: 200000, Closers: []Closer{{Calls: r.Range(1, 2)}},
 					Holds: []Hold{{Task: 2, Point: "closer.start", Until: 1, UntilPoint: "cb.validator"}, {Task: 1, Point: "cb.validator", Until: 2, UntilPoint: r.Pick("close.signalled", "close.signalled", "closer.returned")}}}
+				return c
+			}
+			if r.Chance(1, 30) {
+				// slow validators (engine E2): a login whose lookup takes 0.1 s - 1 min
+				// of simulated time and succeeds, and - starting later, while or after
+				// that lookup runs - a login with a wrong password whose lookup is slow
+				// too: every connection is judged on its own credentials, however late
+				// another connection's verdict arrives
+				c := &Case{Variant: "slow-validators", Server: ServerCfg{Auth: "cleartext", Limit: 4096, DefaultAuth: "reject"}, Programs: map[string]*Program{}}
+				user, db, pw := r.Ident(4), r.Ident(3), "secret"+r.Ident(2)
+				wrong := "wrong" + r.Ident(2)
+				slow := r.PickInt(100, 5500, 7000, 31000, 61000)
+				c.Server.Validator = []AuthEntry{{DB: db, User: user, PW: pw, Out: "accept", SleepMs: slow}, {DB: db, User: user, PW: wrong, Out: r.Pick("reject", "reject", "fail"), SleepMs: r.PickInt(0, 1000, 3000, slow)}}
+				tail := genTail(r, c)
+				c.Conns = []ConnCase{
+					{Steps: []Step{{Msgs: []pgwire.FMsg{startupMsg(user, db)}}, {Msgs: []pgwire.FMsg{{K: "p", S1: pw}, {K: "Q", S1: "after-login"}}}}},
+					{Steps: []Step{{Msgs: []pgwire.FMsg{startupMsg(user, db)}, IdleMs: r.PickInt(0, slow/2, slow-500, slow-10)}, {Msgs: append([]pgwire.FMsg{{K: "p", S1: wrong}}, tail...)}}},
+				}
+				c.Sched = &SchedCase{Strategy: r.Pick("uniform", "pct"), Depth: r.Range(1, 2), MaxSteps: 200000}
 				return c
 			}
 			if r.Chance(1, 12) {
@@ -223,7 +242,14 @@ func init() {
 				sep := r.Pick(":", "@", "", "/", " ", "|", "\x1f")
 				a, b := r.Ident(3), r.Ident(2)
 				var first, second [3]string // user, pw, db
-				switch r.Intn(4) {
+				kind := r.Intn(5)
+				switch kind {
+				case 4:
+					// the very same wrong credentials, presented again: refused and
+					// reported the second time exactly like the first
+					w := "wrong" + r.Ident(2)
+					first = [3]string{user, w, db}
+					second = first
 				case 0:
 					first = [3]string{user, pw, db}
 					second = first
@@ -240,6 +266,9 @@ func init() {
 				ent := AuthEntry{User: first[0], PW: first[1], DB: first[2], Out: "accept"}
 				if second == first {
 					ent.Next = r.Pick("reject", "fail", "failtrue")
+				}
+				if kind == 4 {
+					ent.Out, ent.Next = "reject", ""
 				}
 				c.Server.Validator = []AuthEntry{ent}
 				prev := ConnCase{Steps: []Step{{Msgs: []pgwire.FMsg{startupMsg(first[0], first[2])}}, {Msgs: []pgwire.FMsg{{K: "p", S1: first[1]}, {K: "X"}}}}}
@@ -364,6 +393,29 @@ func init() {
 					}
 					if rest != "" && rest != "E" && len(cs.cc.Faults) == 0 {
 						add("unexpected-output-after-rejection", fmt.Sprintf("after the authentication request the server sent %q, want nothing or exactly one ErrorResponse", rest))
+					}
+					// R3': credentials the validator refuses are wrong whether or not the
+					// server bothers to ask it (again): a plain startup packet and a plain
+					// password message carrying them are answered with class 28
+					if msgs := cs.cc.FlatMsgs(); !rejected && len(cs.cc.Faults) == 0 && c.Server.Auth == "cleartext" && len(msgs) > 1 && msgs[0].K == "startup" && isPlain(&msgs[0]) && len(msgs[0].Tail) == 0 && !msgs[0].NoTerm &&
+						(msgs[0].Proto == 0 || msgs[0].Proto == pgwire.ProtoV3) && msgs[1].K == "p" && isPlain(&msgs[1]) && len(msgs[1].Tail) == 0 && valSeq < 0 {
+						sp := startupParams(&msgs[0])
+						out := c.Server.DefaultAuth
+						if out == "" {
+							out = "reject"
+						}
+						for _, e := range c.Server.Validator {
+							if e.DB == sp["database"] && e.User == sp["user"] && e.PW == msgs[1].S1 {
+								out = e.Out
+								if e.Next != "" {
+									out = "?"
+								}
+								break
+							}
+						}
+						if out == "reject" && cs.Started {
+							rejected = true
+						}
 					}
 					// R3: a wrong password is reported with SQLSTATE class 28
 					if rejected && len(cs.cc.Faults) == 0 {
